@@ -277,3 +277,124 @@ func ZZC07Rereport() {
 		{fu, nd.LineOf(src, "IMM-OTHER"), "IMM01", true},
 	}, "C07 re-reporting")
 }
+
+// file-level markers that are NOT the package clause's own doc comment: separated from it by a blank line, by an
+// ordinary comment group, or by a build constraint
+const c07SrcHead1 = `//«h0»
+
+// Package d has a doc comment of its own.
+package d
+
+func A() int {
+	x := 1
+	return x
+}
+
+func B() int { return 2 }
+
+var Tail = 3 // H-END
+`
+
+const c07SrcHead2 = `//«h0»
+
+//go:build !never
+
+package d
+
+func A() int {
+	x := 1
+	return x
+}
+
+func B() int { return 2 }
+
+var Tail = 3 // H-END
+`
+
+const c07SrcHead3 = `// Copyright header.
+//«h0»
+// More header text.
+
+package d
+
+func A() int {
+	x := 1
+	return x
+}
+
+func B() int { return 2 }
+
+var Tail = 3 // H-END
+`
+
+// ZZC07Header: a marker anywhere before the package clause covers the whole file, also when it is detached from the
+// clause (blank line + package doc, build constraint, middle line of a detached header group).
+func ZZC07Header() {
+	v0 := nd.Int("header_variant")
+	nd.Assume(0 <= v0)
+	nd.Assume(v0 <= 2)
+	variant := nd.Pin(v0)
+	src := []string{c07SrcHead1, c07SrcHead2, c07SrcHead3}[variant]
+	sp := nd.EnumPad("h0", c07Spellings...)
+	holes := []nd.Hole{{Name: "h0", Value: sp}}
+	prog := nd.LoadProgram([]nd.File{{Pkg: "zzmod/d", Name: "d.go", Src: src}}, holes)
+	var raw []analysis.Diagnostic
+	pass := NewPass(prog, "zzmod/d", Facts{}, &raw)
+	set := ignore.ReadIgnoreAnnotations(config.Default(), pass)
+	start := nd.OffsetOf(src, holes, "//«h0»")
+	fileEnd := nd.OffsetOf(src, holes, "3 // H-END") + 1
+	code := nd.Enum("q_code", "IMM01", "IMM02", "CTOR02", "CTOR01", "TONL01", "PKGO03", "IMPL02")
+	qoff := nd.Int("q_offset")
+	nd.Assume(0 <= qoff)
+	nd.Assume(qoff <= fileEnd+2)
+	want := nd.And(c07Matches(sp, code), start <= qoff, qoff <= fileEnd)
+	got := set.Contains(code, prog.PosOf("/zz/zzmod/d/d.go", qoff))
+	nd.Assert(got == want, "a marker before the package clause covers exactly the whole file")
+}
+
+const c07SrcFuncLine = `package u
+
+import "zzmod/d"
+
+func Multi(s *d.S) { //«f1»
+	_ = d.Mock() // FL-CALL
+	s.Reset() // FL-MCALL
+	_ = d.Helper{} // FL-LIT
+}
+
+func After() {
+	_ = d.Mock() // FL-AFTER
+}
+`
+
+const c07SrcFuncLineD = `package d
+
+// @testonly
+type Helper struct{}
+
+// @testonly
+func Mock() int { return 1 }
+
+type S struct{}
+
+// @testonly
+func (s *S) Reset() {}
+`
+
+// ZZC07FuncLine: a marker trailing the 'func' line of a multi-line function covers that line only — the diagnostics
+// in the body stay, whatever the marker's codes (a category or ALL as well as specific codes).
+func ZZC07FuncLine() {
+	f1 := nd.EnumPad("f1", " @ignore TONL", " @ignore ALL", " @ignore TONL02", " @ignore tonl01, TONL03", " plain")
+	holes := []nd.Hole{{Name: "f1", Value: f1}}
+	prog := nd.LoadProgram([]nd.File{{Pkg: "zzmod/d", Name: "d.go", Src: c07SrcFuncLineD}, {Pkg: "zzmod/u", Name: "u.go", Src: c07SrcFuncLine}}, holes)
+	cfg := config.Default()
+	rd := Analyze(prog, cfg, "zzmod/d", Facts{}, "tonl")
+	ru := Analyze(prog, cfg, "zzmod/u", Facts{"zzmod/d": &rd.Ann}, "tonl")
+	fu := "/zz/zzmod/u/u.go"
+	CheckExact(ru.Diags, []Expect{
+		{fu, nd.LineOf(c07SrcFuncLine, "FL-CALL"), "TONL02", true},
+		{fu, nd.LineOf(c07SrcFuncLine, "FL-MCALL"), "TONL03", true},
+		{fu, nd.LineOf(c07SrcFuncLine, "FL-LIT"), "TONL01", true},
+		{fu, nd.LineOf(c07SrcFuncLine, "FL-AFTER"), "TONL02", true},
+	}, "C07 marker trailing the func line covers that line only")
+}
